@@ -121,13 +121,20 @@ fn signals_stream(seed: u64, n: usize, cases: &mut impl Write, outs: &mut impl W
         writeln!(outs, "{}{}", match got { Ok(s) => format!("ok:{}", sig_full(s)), Err(_) => "err".into() }, if oracle.is_empty() { String::new() } else { format!("\t!{oracle}") }).unwrap();
     }
     for num in (-3..=70).chain([i32::MIN, i32::MAX, 128, 255]) {
-        writeln!(cases, "SIGN\t{num}").unwrap(); writeln!(outs, "{}", sig_full(Signal::from(num))).unwrap();
+        // a raw OS number converts to a signal that IS that OS signal
+        let sg = Signal::from(num);
+        let oracle = match nix::sys::signal::Signal::try_from(num) { Ok(nx) if sg.to_nix() != Some(nx) => format!("\t!signal number {num} converts to {sg:?}, which is OS signal {:?}", sg.to_nix()), _ => String::new() };
+        writeln!(cases, "SIGN\t{num}").unwrap(); writeln!(outs, "{}{}", sig_full(sg), oracle).unwrap();
     }
     for raw in 0..=0xFFFFi32 {
         let e = ProcessEnd::from(ExitStatus::from_raw(raw));
         let mut oracle = String::new();
         if raw & 0x7f == 0 { let code = (raw >> 8) & 0xff; let want = if code == 0 { ProcessEnd::Success } else { ProcessEnd::ExitError(NonZeroI64::new(code as i64).unwrap()) }; if e != want { oracle = format!("exit code {code} became {e:?}"); } }
-        let sig = raw & 0x7f; if sig != 0 && sig != 0x7f && raw <= 0xff { if e != ProcessEnd::ExitSignal(Signal::from(sig)) { oracle = format!("terminating signal {sig} (raw {raw:#x}) became {e:?}"); } }
+        // "preserves … the terminating signal", judged WITHOUT the conversion under test: the reported signal must be the OS signal `sig`
+        // (by its number where the platform has a name for it, else as the custom number), with and without the core-dump bit
+        let sig = raw & 0x7f; if sig != 0 && sig != 0x7f && raw <= 0xff {
+            let same = match &e { ProcessEnd::ExitSignal(s) => match nix::sys::signal::Signal::try_from(sig) { Ok(nx) => s.to_nix() == Some(nx), Err(_) => *s == Signal::Custom(sig) }, _ => false };
+            if !same { oracle = format!("terminating signal {sig} (raw {raw:#x}) became {e:?}"); } }
         writeln!(cases, "ST\t{raw}").unwrap(); writeln!(outs, "{}{}", pend_enc(e), if oracle.is_empty() { String::new() } else { format!("\t!{oracle}") }).unwrap();
     }
 }
